@@ -78,10 +78,36 @@ def gen_cons(rnd, idx, force_sat=None):
             if not good:
                 continue
             blocks[rnd.randrange(len(blocks))] = [rnd.choice(good) for _j in range(rnd.randint(1, 2))]
+        extra_txt = [[] for _ in blocks]
+        if rnd.random() < 0.35:
+            # the same '|' expression over theory atoms stated in several branches (only the chosen branch's copy matters)
+            x = rnd.choice([v, w])
+            lo = rnd.randint(2, 6)
+            D = ("or", [("geq", x, num(lo)), ("leq", x, ("neg", num(lo)))])
+            if not sat_mode or ev(D, planted) is True:
+                for blk in blocks:
+                    blk.append(D)
+        if rnd.random() < 0.35:
+            # every branch declares a local constant under the same name and uses it
+            tgt = rnd.choice(reals)
+            loc = "k%d" % rnd.randint(0, 9)
+            vals = [Fraction(rnd.randint(-3, 9)) for _ in blocks]
+            if sat_mode:
+                ok_idx = [i for i, blk in enumerate(blocks) if all(ev(a, planted) is True for a in blk)]
+                if ok_idx:
+                    vals[ok_idx[0]] = planted[tgt][0]
+            if not sat_mode or any(vals[i] == planted[tgt][0] and all(ev(a, planted) is True for a in blocks[i]) for i in range(len(blocks))):
+                for i, blk in enumerate(blocks):
+                    blk.append(("eq", ("id", [tgt]), num(vals[i], "real") if vals[i] >= 0 else ("neg", num(-vals[i], "real"))))
+                    extra_txt[i] = ["real %s = %s;" % (loc, riddle.fmt_num(abs(vals[i]), "real") if vals[i] >= 0 else "-" + riddle.fmt_num(-vals[i], "real")), "%s == %s;" % (tgt, loc)]
         e = ("or", [("and", blk) if len(blk) > 1 else blk[0] for blk in blocks])
         cons.append(e)
         costs = rnd.random() < 0.4
-        stmts.append(" or ".join("{ " + " ".join(pr.expr(a) + ";" for a in blk) + " }" + (" [%d.0]" % rnd.randint(1, 9) if costs else "") for blk in blocks))
+
+        def blk_text(i, blk):
+            body = blk[:-1] if extra_txt[i] else blk       # the last atom of the block is written through the local constant
+            return "{ " + " ".join([pr.expr(a) + ";" for a in body] + extra_txt[i]) + " }" + (" [%d.0]" % rnd.randint(1, 9) if costs else "")
+        stmts.append(" or ".join(blk_text(i, blk) for i, blk in enumerate(blocks)))
     return {"family": "cons", "id": "cons-%d" % idx, "text": _layout(rnd, stmts), "reals": reals, "bools": bools, "kinds": kinds,
             "cons": cons, "planted": planted if sat_mode else None, "parts": _two_parts(rnd, len(decls), stmts)}
 
